@@ -79,6 +79,10 @@ def run(ch, params, decoded=False):
 
         prog2 = dict(prog, ctx=dict(prog["ctx"], **rerender))
         exp2 = ref.run_model(prog2)
+        if exp2["result"][0] == "toobig":
+            return R.skipped_if_too_big(exp2)
+        # (the step budget must cover the render with the OTHER data, which can be much larger than the first one)
+        budget = max(budget, params["budget_mult"] * max(1, exp2["model"].node_renders) + 300_000)
         tpl = Template(emit.page_source(prog))
         for which, pr_, ex_ in (("first", prog, exp), ("second", prog2, exp2)):
             w.begin_op()
